@@ -11,6 +11,8 @@ import json, os, re, subprocess, sys, time, glob, shutil, hashlib, tempfile
 
 ROOT = os.path.dirname(os.path.abspath(__file__))
 REPO = os.environ.get("VERIF_REPO", "/repo")
+# where evidence/ and replay/ are written (default: /verif; overridden when trying seeded changes in a scratch tree)
+OUTROOT = os.environ.get("VERIF_OUTROOT") or os.path.dirname(os.path.abspath(__file__))
 GOROOT_BIN = "/opt/veriftools/go1.26.8/bin"
 HARNESS_DIR = os.path.join(ROOT, "harness")
 GOSYM = os.path.join(ROOT, "bin", "gosym")
@@ -88,7 +90,7 @@ def make_overlay(pkg_rel, workdir):
                 if not ipath.startswith("github.com/pdfcpu/pdfcpu"):
                     continue  # stubs of non-repo functions cannot be injected natively
                 d = os.path.join(REPO, ipath[len("github.com/pdfcpu/pdfcpu"):].lstrip("/"))
-                specs.append(dict(dir=d, func=fn, stub=stub, harness=m.group(2)))
+                specs.append(dict(dir=d, func=fn, stub=stub.rsplit(".", 1)[-1], harness=m.group(2)))
     if specs:
         sp = os.path.join(workdir, "stubs_" + hashlib.md5(pkg_rel.encode()).hexdigest()[:8] + ".json")
         json.dump(specs, open(sp, "w"))
@@ -162,6 +164,8 @@ def run_gosym(pkg, harness, opts, bounds, outp, known_ids, extra=None, timeout=N
         cmd.append("-panicok")
     if opts.get("revmap"):
         cmd.append("-revmap")
+    if opts.get("maprotate"):
+        cmd.append("-maprotate")
     if opts.get("nomerge"):
         cmd.append("-nomerge")
     if known_ids:
@@ -222,7 +226,7 @@ def main():
 def run_property(pid, spec, tier, seed, workdir, t0, only, nodiff):
     known = [k for k in load_known() if k["property"] == pid]
     open_ids = [k["id"] for k in known if k["status"] == "open"]
-    replay_dir = os.path.join(ROOT, "replay", pid)
+    replay_dir = os.path.join(OUTROOT, "replay", pid)
     os.makedirs(replay_dir, exist_ok=True)
     for f in glob.glob(os.path.join(replay_dir, "*.json")):
         os.unlink(f)
@@ -301,17 +305,22 @@ def run_property(pid, spec, tier, seed, workdir, t0, only, nodiff):
                 rp = os.path.join(replay_dir, f"{h['name']}-{solver}-{vi}.json")
                 json.dump(dict(property=pid, harness=h["name"], pkg=pkg, bounds=bounds, kind=v["kind"], msg=v["msg"], site=v["site"],
                                known=v.get("known", ""), draws=v["draws"]), open(rp, "w"), indent=1)
-                nat = run_native(pkg_rel, workdir, h["name"], bounds, replay=rp)
-                totals["replays"] += 1
                 ok = False
                 detail = "native build failed"
-                if nat:
-                    n0 = nat[0]
-                    detail = f"{n0['status']}: {n0.get('msg','')}"
-                    if v["kind"] == "assert":
-                        ok = n0["status"] == "assertfail" and n0.get("msg") == v["msg"]
-                    elif v["kind"] in ("panic", "stackoverflow"):
-                        ok = n0["status"] in ("panic", "crash", "timeout")
+                # Go randomises map iteration: when the engine forked over iteration orders the native
+                # replay is repeated until the recorded order comes up (bounded number of attempts)
+                for attempt in range(40 if o2.get("maprotate") else 1):
+                    nat = run_native(pkg_rel, workdir, h["name"], bounds, replay=rp)
+                    totals["replays"] += 1
+                    if nat:
+                        n0 = nat[0]
+                        detail = f"{n0['status']}: {n0.get('msg','')}"
+                        if v["kind"] == "assert":
+                            ok = n0["status"] == "assertfail" and n0.get("msg") == v["msg"]
+                        elif v["kind"] in ("panic", "stackoverflow"):
+                            ok = n0["status"] in ("panic", "crash", "timeout")
+                    if ok or not nat:
+                        break
                 if ok:
                     if v.get("known"):
                         known_hits.setdefault(v["known"], rp)
@@ -399,9 +408,9 @@ def run_property(pid, spec, tier, seed, workdir, t0, only, nodiff):
         assumptions=spec.get("assumptions", []) + ["go/ssa v0.50.0 lowering of the current /repo tree", "gosym interpreter semantics (validated per run by native-vs-engine differential runs and native replay of every counterexample)", "SMT solver soundness (z3 5.1.0 / cvc5 1.0.3)"],
         wall_s=round(wall, 2), violations=len(violations),
     )
-    os.makedirs(os.path.join(ROOT, "evidence"), exist_ok=True)
+    os.makedirs(os.path.join(OUTROOT, "evidence"), exist_ok=True)
     if not only:
-        json.dump(ev, open(os.path.join(ROOT, "evidence", f"{pid}.json"), "w"), indent=1)
+        json.dump(ev, open(os.path.join(OUTROOT, "evidence", f"{pid}.json"), "w"), indent=1)
     log(pid, f"paths={totals['paths']} asserts={totals['asserts']} queries={totals['feas']+totals['assert_q']} unknown={totals['unknown']} diff={totals['diff_runs']} replays={totals['replays']} wall={wall:.1f}s -> exit {rc}")
     return rc
 
